@@ -25,7 +25,10 @@ parse_file (const char *file, eav_t *eav)
         return;
     }
 
-    while ((read = getline (&line, &len, fh)) != EOF) {
+    while ((read = getline (&line, &len, fh)) != EOF)
+    EAV_VERIF_LOOP(parse_file)
+    {
+        EAV_VERIF_STEP(parse_file)
         if (read >= 2 && (memcmp(line + read - 2, "\r\n", 2)) == 0)
             line[read-2] = '\0';
         else if (read >= 1 && line[read-1] == '\n')
